@@ -6,7 +6,9 @@ From Ford Require Import Base.Str Base.Path Out.Names Out.Urls Gen.NavConds Out.
 Inductive case :=
 | CRelpath (target start out : str)                  (* os.path.relpath(target, start) *)
 | CProjectUrl (outdir page out : str)                (* BasePage(...).project_url, relative mode *)
-| CRelurl (pre href post : str) (has_link : bool) (page out : str)   (* relative_url(pre+href+post, page) *)
+| CRelurl (pre href post : str) (has_link dead_only : bool) (page out : str)
+      (* relative_url(pre+href+post, page); has_link: href is the href of the first <a> that has one;
+         dead_only: the text has <a> elements but none with href *)
 | CUrlOf (e : entity) (out : option str)             (* e.get_url() *)
 | CDocLink (base ctx target : str) (frag : option str) (out : str)
       (* href of [[ref]] converted with context=entity whose get_url() is ctx; ref's get_url() = target#frag *)
@@ -59,9 +61,9 @@ Definition judge (k : case) : nat :=
                                  (skipn (length (normalise (split_path outdir))) (normalise (split_path page)))) out))
               (negb (list_eqb str_eqb (resolve (parent (split_path page)) (split_path out))
                                       (normalise (split_path outdir)))) 0
-  | CRelurl pre href post has_link page out =>
-      let absolute := starts_with [slash] href in
-      verdict (negb (str_eqb (relative_url_str pre href post has_link page) out))
+  | CRelurl pre href post has_link dead_only page out =>
+      let absolute := starts_with [slash] href && has_link in
+      verdict (negb (str_eqb (relative_url_str pre href post has_link dead_only page) out))
               (absolute &&
                negb (list_eqb str_eqb
                        (resolve (parent (split_path page)) (split_path (middle pre post out)))
@@ -95,5 +97,5 @@ Definition judge (k : case) : nat :=
       verdict (negb (list_eqb Bool.eqb (model_emitted c) emitted)
                || negb (list_eqb Bool.eqb (model_pages c) pages))
               (any_broken emitted texist)
-              (if in_region c then 1 else 0)
+              0
   end.
